@@ -35,14 +35,15 @@ type ctx struct {
 	deadline time.Time
 	hasDl    bool
 	key, val interface{}
+	cause    error
 }
 
 type background struct{}
 
-func (background) Deadline() (time.Time, bool)         { return time.Time{}, false }
-func (background) Done() *vchan.Chan[struct{}]         { return nil } // a nil channel blocks forever, as in Go
-func (background) Err() error                          { return nil }
-func (background) Value(interface{}) interface{}       { return nil }
+func (background) Deadline() (time.Time, bool)   { return time.Time{}, false }
+func (background) Done() *vchan.Chan[struct{}]   { return nil } // a nil channel blocks forever, as in Go
+func (background) Err() error                    { return nil }
+func (background) Value(interface{}) interface{} { return nil }
 
 // Background is context.Background.
 func Background() Context { return background{} }
@@ -70,18 +71,24 @@ func (c *ctx) Value(k interface{}) interface{} {
 	return c.parent.Value(k)
 }
 
-func (c *ctx) cancel(err error, fromTimer bool) {
+func (c *ctx) cancel(err error, fromTimer bool) { c.cancelCause(err, nil, fromTimer) }
+
+func (c *ctx) cancelCause(err, cause error, fromTimer bool) {
 	if c.err != nil {
 		return
 	}
 	c.err = err
+	if cause == nil {
+		cause = err
+	}
+	c.cause = cause
 	if fromTimer {
 		c.done.CloseFromTimer()
 	} else {
 		c.done.Close()
 	}
 	for _, ch := range c.children {
-		ch.cancel(err, fromTimer)
+		ch.cancelCause(err, cause, fromTimer)
 	}
 }
 
@@ -89,7 +96,7 @@ func newCtx(parent Context) *ctx {
 	c := &ctx{parent: parent, done: vchan.Make[struct{}]()}
 	if p, ok := parent.(*ctx); ok {
 		if p.err != nil {
-			c.err = p.err
+			c.err, c.cause = p.err, p.cause
 			c.done.CloseFromTimer()
 		} else {
 			p.children = append(p.children, c)
@@ -134,6 +141,89 @@ func WithValue(parent Context, key, val interface{}) Context {
 	c.key, c.val = key, val
 	c.done = parent.Done()
 	return c
+}
+
+// CancelCauseFunc is context.CancelCauseFunc.
+type CancelCauseFunc func(cause error)
+
+// WithCancelCause is context.WithCancelCause.
+func WithCancelCause(parent Context) (Context, CancelCauseFunc) {
+	c := newCtx(parent)
+	return c, func(cause error) { c.cancelCause(Canceled, cause, false) }
+}
+
+// WithTimeoutCause is context.WithTimeoutCause.
+func WithTimeoutCause(parent Context, d time.Duration, cause error) (Context, CancelFunc) {
+	c := newCtx(parent)
+	c.hasDl = true
+	if s := sched.Cur; s != nil && !s.Aborted() {
+		c.deadline = time.Unix(0, s.NowNs+int64(d)).UTC()
+		if d <= 0 {
+			c.cancelCause(DeadlineExceeded, cause, true)
+		} else {
+			s.AddTimer(int64(d), func() { c.cancelCause(DeadlineExceeded, cause, true) })
+		}
+	}
+	return c, func() { c.cancel(Canceled, false) }
+}
+
+// WithDeadlineCause is context.WithDeadlineCause.
+func WithDeadlineCause(parent Context, t time.Time, cause error) (Context, CancelFunc) {
+	d := time.Duration(0)
+	if s := sched.Cur; s != nil {
+		d = t.Sub(time.Unix(0, s.NowNs))
+	}
+	return WithTimeoutCause(parent, d, cause)
+}
+
+// Cause is context.Cause.
+func Cause(c Context) error {
+	for {
+		switch x := c.(type) {
+		case *ctx:
+			if x.key != nil && x.done == x.parent.Done() {
+				c = x.parent // a WithValue node has no state of its own
+				continue
+			}
+			return x.cause
+		case withoutCancel:
+			return nil
+		default:
+			return nil
+		}
+	}
+}
+
+type withoutCancel struct{ parent Context }
+
+func (withoutCancel) Deadline() (time.Time, bool)       { return time.Time{}, false }
+func (withoutCancel) Done() *vchan.Chan[struct{}]       { return nil }
+func (withoutCancel) Err() error                        { return nil }
+func (w withoutCancel) Value(k interface{}) interface{} { return w.parent.Value(k) }
+
+// WithoutCancel is context.WithoutCancel.
+func WithoutCancel(parent Context) Context { return withoutCancel{parent} }
+
+// AfterFunc is context.AfterFunc: f runs on its own simulated goroutine once ctx is done.
+func AfterFunc(c Context, f func()) (stop func() bool) {
+	stopped, started := false, false
+	run := func() {
+		if !stopped && !started {
+			started = true
+			f()
+		}
+	}
+	if d := c.Done(); d != nil {
+		sched.Go(func() {
+			d.Recv()
+			run()
+		})
+	}
+	return func() bool {
+		was := !stopped && !started
+		stopped = true
+		return was
+	}
 }
 
 // Pick builds the context a workload hands to a context-taking ID source: kind 0 never ends,
